@@ -318,6 +318,10 @@ func cmdCheck(args []string) int {
 		trusted["TRUSTED: bpf.Assemble encodes each bpf.Instruction field-wise (the lemma is stated over the instruction list read from the source)"] = true
 		trusted["reference predicates transcribe the property statement; 'unfragmented' is read as fragment offset zero (the MF bit is not inspected)"] = true
 	}
+	if prop == "C14" {
+		trusted["C14 scope: fields of parallel-capable drivers (classified over the SSA reachable from SendProbe / ReceiveProbe) and variables protected by a declared monitor; objects reached only through pointer fields are not followed; channel-based synchronisation is not recognised (sufficient discipline, not necessary)"] = true
+		trusted["TRUSTED: sync.Mutex, sync/atomic and the go-cache internal lock provide mutual exclusion / atomicity"] = true
+	}
 	var tb []string
 	for k := range trusted {
 		tb = append(tb, k)
@@ -356,6 +360,16 @@ func cmdCheck(args []string) int {
 	}
 	if level == "other" {
 		cov["explanation"] = meta.NotProof
+	}
+	if prop == "C14" {
+		ri := w.raceAnalysis()
+		cov["driver_field_classification"] = ri.report
+		var gs []string
+		for k := range ri.guards {
+			gs = append(gs, k)
+		}
+		sort.Strings(gs)
+		cov["contended_fields_requiring_the_mutex"] = gs
 	}
 	writeEvidence(root, prop, tier, seed, level, cov, tb, time.Since(t0).Seconds(), viol)
 	fmt.Printf("property %s: units=%d obligations=%d discharged=%d violations=%d known=%d (%.1fs)\n", prop, len(results), nObl, nOK, viol, len(matched), time.Since(t0).Seconds())
